@@ -2,6 +2,7 @@
 `hash-...` component is unfolded at its uses (a back edge of a recursive component becomes a
 relative marker), explicit components keep their names."""
 import json
+import os
 import re
 
 HASH = re.compile(r"^hash-[0-9a-f]{64}$")
@@ -137,7 +138,8 @@ def abstract_schema(s, comps, K, d=0, hops=0):
     if ty == "object":
         req = set(s.get("required") or [])
         # the harness hands the document over as JSON with sorted keys: properties are compared as a set
-        return sch("object", kids=[sch("prop", k, 1 if k in req else 0, [edge(v)]) for k, v in sorted((s.get("properties") or {}).items())], an=real_ann(s))
+        # at the cut depth the type of a property is not looked at, so neither is the default it may lend the flag
+        return sch("object", kids=[sch("prop", k, 1 if k in req and d < K else 0, [edge(v)]) for k, v in sorted((s.get("properties") or {}).items())], an=real_ann(s))
     if ty == "array":
         return sch("array", kids=[edge(s.get("items"))], an=real_ann(s))
     if ty == "string":
@@ -184,6 +186,9 @@ def abstract_doc(doc, K):
     return {"paths": items, "comps": ecomps}
 
 
+MSG = int(os.environ.get("OALV_MSG", "200"))
+
+
 def norm_sch(s):
     """Den.tla schema record (JSON) -> the same shape with @ stripped from reference names"""
     if s is None:
@@ -196,6 +201,10 @@ def norm_sch(s):
     # reflected in the flag; a reference carries none
     an = [] if s["t"] in ("prop", "ref", "...") else [(e["key"], canon_ann(e["key"], e["val"])) for e in s.get("an", [])
                                                        if e["key"] != "required" and not (s["t"] == "uri" and e["key"] == "example")]
+    # fl = 2: required by the default of the property's type, which counts inside an object schema only (see Den.tla)
+    if s["t"] == "object":
+        kids = [dict(k, fl=0) if k["t"] == "prop" and k["kids"][0]["t"] == "..." else
+                dict(k, fl=1) if k["t"] == "prop" and k["fl"] == 2 else k for k in kids]
     return sch(s["t"], n, s["fl"], kids, an)
 
 
@@ -309,7 +318,7 @@ def compare_docs(exp, real):
                 for fld in ("query", "headers", "request"):
                     if json.dumps(eo[fld], sort_keys=True) != json.dumps(ro[fld], sort_keys=True):
                         out.append((differ("%s-differ" % ("request-body" if fld == "request" else "operation-" + fld), eo[fld], ro[fld]),
-                                    "%s %s %s: expected %s, document %s" % (m, pat, fld, json.dumps(eo[fld])[:200], json.dumps(ro[fld])[:200])))
+                                    "%s %s %s: expected %s, document %s" % (m, pat, fld, json.dumps(eo[fld])[:MSG], json.dumps(ro[fld])[:MSG])))
                 # annotations of the operation: what is declared must be there (summary falls back to the description,
                 # operationId is synthesized when not declared - C03's subject)
                 if eo.get("operationId") and eo["operationId"] != ro.get("operationId"):
